@@ -149,6 +149,7 @@ def correspondence(ctx):
     import numqi
     S = numqi.state
     rng = ctx.rng
+    # full statements kept as `def … .Statement : Prop` (not proved) are counted as open obligations
     ctx.proof['obligations'] += len(OPEN_STATEMENTS)
     ctx.extra['open_statements'] = OPEN_STATEMENTS
     delta = dict(rational=0.0, floatops=0.0)
